@@ -200,9 +200,6 @@ class DULServiceProvider(threading.Thread):
             self._is_killed.set()
 
     def _check_network(self):
-        if self.state_machine.current_state == fsm.States.STA_13:
-            return self._close()
-
         if not self.dul_socket:
             return False
 
